@@ -217,3 +217,72 @@ example : firstOcc [13, 10] (([97, 97, 97, 97, 97, 97, 97, 97] : Bytes) ++ [13, 
   decide +kernel
 
 end EasyNet
+
+-- ==== BEGIN raw JSON framer ====
+namespace EasyNet
+
+/-- **C02 sentence 1, raw JSON framer, copying consumer — proved for streams without optional whitespace between documents.**
+    Take any stream made of well-delimited documents (`JRaw.Doc.ok`: an object / array / string that the scanner closes
+    exactly on its last byte and that is at most `limit` bytes long, or a run of at most `limit` value bytes followed by one
+    whitespace byte; the documents need NOT be valid JSON — `{]}` is well delimited and costs exactly one parse error),
+    followed by an incomplete tail within the limit.  Then every two chunkings of the same bytes deliver the same items:
+    exactly one frame per document, exactly that document's bytes, in order — which is also the one-go decoding
+    `decodeW (JRaw.spec limit)` of the stream.
+
+    PARTIAL with respect to the property's sentence in one respect, which the proof forced: documents must follow each other
+    without *optional* whitespace (the single terminator of a plain value is part of its document).  With optional whitespace
+    the statement about frames is false — see the `example` below: `_split_partial_document` attaches to a document whatever
+    whitespace has already arrived behind it, so the same bytes cut differently give `{}·` `[]` or `{}` `·[]`.  The packets
+    after JSON decoding are the same (the decoder ignores surrounding whitespace; exercised by the C02 harness cases with
+    gaps, not proved), but acceptance is not: whitespace that arrives after its document was delivered counts towards the
+    next document's limit.  Missing for the full statement: the same theorem modulo whitespace attribution, for streams
+    where each gap plus the following document is within the limit. -/
+theorem C02_jraw_chunking_independent_partial (limit : Nat) (docs : List JRaw.Doc) (hok : ∀ d ∈ docs, d.ok limit)
+    (tail : Bytes) (htail : JRaw.TailOk limit tail ∨ tail = [])
+    (cs₁ cs₂ : List Bytes) (h₁ : cs₁.flatten = (docs.map JRaw.Doc.bytes).flatten ++ tail) (h₂ : cs₂.flatten = cs₁.flatten) :
+    (Consumer.run JRaw.init (JRaw.feed limit) Consumer.new cs₁).2
+      = (Consumer.run JRaw.init (JRaw.feed limit) Consumer.new cs₂).2 ∧
+    (Consumer.run JRaw.init (JRaw.feed limit) Consumer.new cs₁).2 = docs.map (fun d => Item.frame d.bytes) ∧
+    (Consumer.run JRaw.init (JRaw.feed limit) Consumer.new cs₁).2 = (decodeW (JRaw.spec limit) cs₁.flatten).2 := by
+  have ht : JRaw.IsTail limit tail := by
+    rcases htail with h | h
+    · exact h.isTail
+    · subst h; exact JRaw.isTail_nil limit
+  have r1 := (JRaw.run_docs limit docs hok tail ht cs₁ h₁).1
+  have r2 := (JRaw.run_docs limit docs hok tail ht cs₂ (by rw [h₂, h₁])).1
+  refine ⟨by rw [r1, r2], r1, ?_⟩
+  rw [r1]
+  have := JRaw.refRun_docs limit docs hok tail ht [cs₁.flatten] (by simpa using h₁)
+  unfold decodeW
+  have h3 : refRun (JRaw.spec limit) [] [cs₁.flatten] = refRecv (JRaw.spec limit) [] cs₁.flatten := by
+    simp [refRun]
+  rw [h3, Prog.refRecv_eq_decodeW (JRaw.spec_prog limit)] at this
+  simp only [List.nil_append] at this
+  unfold decodeW at this
+  rw [this]
+
+/-- **The whitespace rule, exactly** (what the partial theorem above excludes between documents): whitespace `w` that follows
+    a well-delimited document in the same buffer, up to the next non-whitespace byte (`goodRest x`) or the end of the buffer,
+    is attached to the frame; nothing else is.  One document, one item, exactly `document ++ w` consumed — whether or not the
+    document is valid JSON. -/
+theorem C02_jraw_one_item_per_document (limit : Nat) (d : JRaw.Doc) (hd : d.ok limit) (w x : Bytes)
+    (hw : w.all JRaw.isWs = true) (hx : JRaw.goodRest x = true) :
+    JRaw.spec limit (d.bytes ++ w ++ x) = .done (d.bytes ++ w) x :=
+  JRaw.Doc.ws_attach limit d hd w x hw hx
+
+example : (JRaw.Doc.encl [123, 93, 125]).ok 8 ∧ ([32, 10] : Bytes).all JRaw.isWs = true ∧ JRaw.goodRest [91] = true := by
+  decide +kernel
+
+/-- non-vacuity: `{]}` (malformed, well delimited), `12\n`, `"a\\"`, then the unfinished `[1,` -/
+example : (∀ d ∈ [JRaw.Doc.encl [123, 93, 125], .plain [49, 50] 10, .encl [34, 97, 92, 92, 34]], d.ok 8) ∧
+    JRaw.TailOk 8 [91, 49, 44] := by decide +kernel
+
+/-- the excluded point: with optional whitespace between documents the frames depend on the chunking
+    (`{} []` cut after the space vs before it) -/
+example : (Consumer.run JRaw.init (JRaw.feed 8) Consumer.new [[123, 125, 32], [91, 93]]).2
+      = [.frame [123, 125, 32], .frame [91, 93]] ∧
+    (Consumer.run JRaw.init (JRaw.feed 8) Consumer.new [[123, 125], [32, 91, 93]]).2
+      = [.frame [123, 125], .frame [32, 91, 93]] := by decide +kernel
+
+end EasyNet
+-- ==== END raw JSON framer ====
